@@ -465,6 +465,11 @@ func (v Value) Int64() (int64, error) {
 	}
 	if !n.X.Coeff.IsInt64() {
 		if n.X.Negative {
+			// The magnitude of math.MinInt64 is 1<<63, which does not fit
+			// in an int64 even though the value itself does.
+			if n.X.Coeff.IsUint64() && n.X.Coeff.Uint64() == 1<<63 {
+				return math.MinInt64, nil
+			}
 			return math.MinInt64, ErrAbove
 		}
 		return math.MaxInt64, ErrBelow
